@@ -244,27 +244,29 @@ Proof.
   intros s entry e r p ds. subst r. unfold submit_dv. rewrite dv_conditions_iff.
   destruct (entry =? 0) eqn:E; [apply Z.eqb_eq in E | apply Z.eqb_neq in E].
   - destruct (dv_vb_ok e) eqn:VB; simpl.
-    2:{ unfold E_VB. repeat split; auto; try (intro H; discriminate H).
+    2:{ unfold E_VB. split; [split; [intro H; discriminate H|] | split; [intro H; discriminate H | auto]].
         intros [[M _] _]. destruct (M E) as [X _]. discriminate X. }
     destruct (0 <=? dv_bid_cmp e) eqn:B; simpl.
-    { apply Z.leb_le in B. unfold E_VB. repeat split; auto; try (intro H; discriminate H).
+    { apply Z.leb_le in B. unfold E_VB.
+      split; [split; [intro H; discriminate H|] | split; [intro H; discriminate H | auto]].
       intros [[M _] _]. destruct (M E) as [_ [X _]]. lia. }
     apply Z.leb_gt in B.
     destruct (dv_valset_ok e) eqn:VS; simpl.
-    2:{ unfold E_VALSET. repeat split; auto; try (intro H; discriminate H).
+    2:{ unfold E_VALSET. split; [split; [intro H; discriminate H|] | split; [intro H; discriminate H | auto]].
         intros [[M _] _]. destruct (M E) as [_ [_ [X _]]]. discriminate X. }
     destruct (dv_key_in_valset e) eqn:KV; simpl.
-    2:{ unfold E_NOKEY. repeat split; auto; try (intro H; discriminate H).
+    2:{ unfold E_NOKEY. split; [split; [intro H; discriminate H|] | split; [intro H; discriminate H | auto]].
         intros [[M _] _]. destruct (M E) as [_ [_ [_ X]]]. discriminate X. }
     destruct (handle_dv_spec s true e) as [A [B' C]]. fold p in A, B', C. fold ds in B'.
-    repeat split; auto; try (apply A; tauto); try tauto.
-    + intro H. apply A in H. tauto.
-    + intro H. apply A in H. tauto.
+    split; [|split; auto].
+    split.
+    + intro H. apply A in H. destruct H as [H1 H2]. split; auto.
+    + intros [[_ H1] H2]. apply A. auto.
   - destruct (handle_dv_spec s (dv_key_present e) e) as [A [B' C]]. fold p in A, B', C. fold ds in B'.
-    repeat split; auto; try contradiction.
-    + intro H. apply A in H. tauto.
-    + intro H. apply A in H. tauto.
-    + intros [[_ H1] H2]. apply A. tauto.
+    split; [|split; auto].
+    split.
+    + intro H. apply A in H. destruct H as [H1 H2]. split; auto. split; auto. intro; contradiction.
+    + intros [[_ H1] H2]. apply A. auto.
 Qed.
 
 (* ---------------------------------------------------------------- GetByzantineValidators *)
@@ -408,7 +410,7 @@ Proof.
       * intro i. rewrite V, punish_one_time, count_res_cons. fold p.
         destruct (p =? i) eqn:Ei; [apply Z.eqb_eq in Ei | apply Z.eqb_neq in Ei].
         -- subst i. rewrite (punish_one_getv_same _ _ _ _ Hv), Hv. simpl.
-           unfold punishable at 2. rewrite G. reflexivity.
+           unfold punishable. rewrite G. reflexivity.
         -- rewrite punish_one_getv_other; auto.
       * intros _. exists a. split; [left; auto|]. exists v. auto.
     + assert (NG := slash_err _ _ _ _ S).
